@@ -310,7 +310,9 @@ private theorem step_readlines (f : BF Chan) (hint : Option Int) (hg : Good f) :
     StepLaw f (.readlines hint) (step chanOps f (.readlines hint)) := by
   simp only [step, readlines]
   rcases usable f f.rd (Or.inl rfl) with ⟨hc, hr⟩ | hx
-  · obtain ⟨new, g1, g2, g3, g4, g5, _⟩ := readlinesLoop_chan hint
+  · rw [if_neg (by simp [hc, hr]), syncForRead_chan]
+    simp only
+    obtain ⟨new, g1, g2, g3, g4, g5, _⟩ := readlinesLoop_chan hint
       (f.rbuf.length + chanOps.bound f.s f.realpos + 1) f [] 0 hg.1.2 hc hr (by simp [pending])
     rcases hres : readlinesLoop chanOps hint (f.rbuf.length + chanOps.bound f.s f.realpos + 1) f [] 0 with ⟨f1, r1⟩
     rw [hres] at g1 g2 g3 g4 g5
@@ -318,9 +320,10 @@ private theorem step_readlines (f : BF Chan) (hint : Option Int) (hg : Good f) :
     subst g1
     exact readlike hg g3 g4 g5 trivial (by simpa [outOf, Out.got] using g2.flatten_append) rfl
   · -- the first `readline` raises; nothing has changed
+    rw [if_pos (by rcases hx with h | h <;> simp [h])]
     obtain ⟨h1, e, h2⟩ := readline_err_chan f none hx
     have hk := err_kind_readline f none e h2 hx
-    have : readlinesLoop chanOps hint (f.rbuf.length + chanOps.bound f.s f.realpos + 1) f [] 0 = (f, .error e) := by
+    have : readlinesLoop chanOps hint 1 f [] 0 = (f, .error e) := by
       rw [readlinesLoop]
       rcases hres : readline chanOps f none with ⟨f1, r1⟩
       rw [hres] at h1 h2
